@@ -64,8 +64,10 @@ def case(draw, tier):
     else:
         c = [[t, [{"k": "set", "v": draw(st.sampled_from([-1, 0, 1]))}]] for t in ctimes]
         g = target()
+    # the candidate targets are separate outputs, or sibling children of ONE output (elements of a TSL / fields of a TSB)
+    siblings = draw(st.sampled_from([None, None, "TSL", "TSB"]))
     return {"start": start, "end": end, "shape": shape, "a": a, "b": b, "g": g, "via": via, "c": c, "n_cons": draw(st.integers(1, 3)),
-            "nested": draw(st.integers(0, 3)) == 0}
+            "nested": draw(st.integers(0, 3)) == 0, "siblings": siblings}
 
 
 def strategy(tier):
@@ -107,6 +109,22 @@ def check(case, ctx) -> Result:
                  {"id": "cr", "op": "op", "name": "cmp_", "args": [{"ts": "c"}, {"ts": "z"}], "has_out": True},
                  {"id": "sel0", "op": "op", "name": "if_cmp", "args": [{"ts": "cr"}, {"ts": "a"}, {"ts": "b"}, {"ts": "g"}], "has_out": True}]
         pick = lambda v: "a" if v < 0 else "b" if v == 0 else "g"
+    sib = case.get("siblings")
+    if sib:
+        # one scripted source whose children are the targets; the selection operator is given child references
+        tn = [n for n in ("a", "b", "g") if any(x["id"] == n for x in stmts)]
+        merged = {}
+        for i, n in enumerate(tn):
+            for t, ops in case[n]:
+                merged.setdefault(t, []).extend({"k": "i", "i": i, "op": op} for op in ops)
+        whole = f"TSL[{shape},{len(tn)}]" if sib == "TSL" else "TSB[" + ",".join(f"t{i}:{shape}" for i in range(len(tn))) + "]"
+        stmts = [x for x in stmts if x["id"] not in tn]
+        stmts.insert(1, {"id": "ab", "op": "src", "schema": whole, "script": [[t, ops] for t, ops in sorted(merged.items())]})
+        for x in stmts:
+            if x["id"] == "sel0":
+                for arg in x["args"]:
+                    if arg.get("ts") in tn:
+                        arg["ts"] = {"r": "ab", "path": [tn.index(arg["ts"])]}
     subs = {}
     sel = "sel0"
     if case["nested"]:
@@ -143,7 +161,7 @@ def check(case, ctx) -> Result:
     sc = {t: ops for t, ops in case["c"]}
     cur = None         # "a" / "b"
     held = None        # the value the consumers hold (contents of the previous target as last seen)
-    feats0 = {"shape": shape, "nested": case["nested"], "via": via}
+    feats0 = {"shape": shape, "nested": case["nested"], "via": via, "siblings": bool(sib)}
     exp = {}           # t -> dict(value, kind, delta alternatives)
     retarget_to_old = unselected_tick_after = False
     maybe_unbound = True
@@ -252,5 +270,7 @@ def check(case, ctx) -> Result:
         res.labels.append("nested_passthrough")
     res.labels.append("shape_" + shape.split("[")[0])
     res.labels.append("via_" + via)
+    if sib:
+        res.labels.append("sibling_targets_" + sib)
     res.summary = {"expected": {t: e["kind"] for t, e in sorted(exp.items())}, "shape": shape}
     return res
